@@ -24,12 +24,12 @@ func init() {
 // PoolReplay replays, on the real connection pool, the counterexample TLC finds for NoCrash in
 // spec/Batched.tla (one caller is enough on the real code, its own retry plays the second caller):
 //
-//   Submit, BRecv, BForm, BHandoff        the batch is handed to the reader ...
-//   Cut                                   ... the connection is cut before the batcher has written it
-//   REof, VNotify, VReconnect, VSignal    the recovery goroutine reconnects and releases the reader
-//   BWrite                                the batcher now writes the OLD batch onto the NEW connection
-//   BackendStep                           the backend answers it
-//   BRecv, BForm, BHandoff, RRead         the reader, holding the NEXT batch, meets an opaque it does not know
+//	Submit, BRecv, BForm, BHandoff        the batch is handed to the reader ...
+//	Cut                                   ... the connection is cut before the batcher has written it
+//	REof, VNotify, VReconnect, VSignal    the recovery goroutine reconnects and releases the reader
+//	BWrite                                the batcher now writes the OLD batch onto the NEW connection
+//	BackendStep                           the backend answers it
+//	BRecv, BForm, BHandoff, RRead         the reader, holding the NEXT batch, meets an opaque it does not know
 //
 // The hooks of the verif build (batched.VerifEvent) hold the batcher between hand-off and write.
 // The scenario runs in a child process; the parent reports how it ended.
